@@ -178,12 +178,19 @@ func bclQuote(v string) string {
 
 // enumOption prints one enum option; info keys become the option's info map (P schema.proto Enum.Option.info)
 func (p *j5sPrinter) enumOption(name string, info [][]string) {
-	if len(info) == 0 {
+	declared := ""
+	if strings.HasPrefix(name, "NUM") && len(name) > 3 && strings.Trim(name[3:], "0123456789") == "" {
+		declared = name[3:] // the option declares `number = N` (ignored by the compiler: numbering is positional)
+	}
+	if len(info) == 0 && declared == "" {
 		p.line("option %s", name)
 		return
 	}
 	p.line("option %s {", name)
 	p.ind++
+	if declared != "" {
+		p.line("number = %s", declared)
+	}
 	for _, kv := range info {
 		p.line("info.%s = %s", kv[0], bclQuote(infoValue(kv[1])))
 	}
